@@ -8,6 +8,8 @@ import Q1t.Proofs.OpenQasmComplex
 import Q1t.Proofs.OpenQasmComplex2
 import Q1t.Proofs.OpenQasmWitness
 import Q1t.Proofs.OpenQasmWF
+import Q1t.Proofs.OpenQasmEquiv
+import Q1t.Proofs.OpenQasmConstAbs3
 /-!
 # C11 — OpenQASM export preserves circuit semantics or fails
 
@@ -27,8 +29,9 @@ of a program is the fold of its statements (`semantics_is_fold`); per gate, the 
 (all constant gates exactly; RX RY RZ U1 U2 U3 for all angles).
 
 NOT PROVED (checked on every run by (B) on generated circuits only) — `unproved`:
-  * `export_equiv_partial` (the lifting of the per-gate facts to whole circuits needs the composition laws of
-    `Spec.embed` under relabelling of qubits for the exported statement sequences, which are not developed).
+  * the whole-circuit equivalence beyond the class of `export_equiv_partial` (unconditional gates from the
+    parametrised library gates, resets, barriers): measurements, conditional gates, `reset_all`, `measure_all`, and
+    constant gates as leaves over an arbitrary amplitude type.
 Every library gate with a translation into `qelib1` has its per-gate obligation proved: the constants exactly
 (`constant_gates_exact`; CT, CTdg in `parametrised_controlled_gates`), all parametrised gates for all angles
 (`parametrised_one_qubit_gates`, `parametrised_controlled_gates`).
@@ -37,7 +40,8 @@ namespace Q1t.Props.C11
 open Q1t Q1t.OpenQasm Q1t.Spec.OQ2
 
 /-- names of what is not proved (see the header) -/
-def unproved : List String := ["export_equiv_partial"]
+def unproved : List String :=
+  ["export_equiv (full): measure_all in the Z basis (needs a List.Perm statement between the branch lists)"]
 
 variable {P : Type}
 
@@ -207,6 +211,148 @@ example : (∀ θ : ℝ, LibGateOK ℂ ℝ libTable "CCRX" [θ]) ∧ (∀ t p l 
       lawfulAngle3Complex).2.2.2.2.2.1,
    (parametrised_controlled_gates AmpComplex.lawful AmpComplex.lawfulHalf lawfulAngleComplex lawfulAngle2Complex
       lawfulAngle3Complex).2.2.2.2.1⟩
+
+/-! ## Equivalence outside the defect classes (partial) -/
+
+section equiv
+variable {α : Type} [CommRing α] [Amp α P] [Angle P]
+
+/-- every library gate with a translation into `qelib1` (all of the table except CU2, CV, CVdg) -/
+def okParam (name : String) : Bool :=
+  ["RX", "RY", "RZ", "U1", "U2", "U3", "CRX", "CRY", "CRZ", "CU1", "CU3", "CCRX", "CCRY", "CCRZ", "CT", "CTdg", "H", "X", "Y", "Z", "S", "Sdg", "T", "Tdg", "V", "Vdg", "I", "CX", "CY", "CZ", "Swap", "CS", "CSdg", "CH", "CCX", "CCZ"].contains name
+
+theorem params_len (name : String) (t : GateTpl) (k : Nat) (ht : lookupTpl libTable name = some t)
+    (hk : (lookupTpl libTable name).map (·.params.length) = some k) : t.params.length = k := by
+  rw [ht] at hk; simpa using hk
+
+/-- `okParam` names exactly the gates of the table whose template is good -/
+theorem okParam_eq_good : (libTable.filter goodTpl).all (fun t => okParam t.name) = true ∧
+    (libTable.filter fun t => okParam t.name).all goodTpl = true := by decide
+
+theorem leaves_ok (h : LawfulAmp α P) (hh : Proofs.Unitaries.LawfulHalf α P) (ha : LawfulAngle α P)
+    (ha2 : LawfulAngle2 α P) (ha3 : LawfulAngle3 α P) (hpi : LawfulAnglePi α P) :
+    LeavesOK' α P libTable okParam := by
+  have hp := parametrised_one_qubit_gates h hh ha
+  have hc := parametrised_controlled_gates h hh ha ha2 ha3
+  intro name t hok ht _ vals hlen
+  simp only [okParam, List.contains_iff_mem, List.mem_cons, List.not_mem_nil, or_false] at hok
+  have one : ∀ (k : Nat), t.params.length = k → vals.length = k := fun k e => by rw [hlen, e]
+  rcases hok with rfl | rfl | rfl | rfl | rfl | rfl | rfl | rfl | rfl | rfl | rfl | rfl | rfl | rfl | rfl | rfl | rfl | rfl | rfl | rfl | rfl | rfl | rfl | rfl | rfl | rfl | rfl | rfl | rfl | rfl | rfl | rfl | rfl | rfl | rfl | rfl
+  · match vals, one 1 (params_len _ t 1 ht (by decide)) with
+    | [θ], _ => exact hp.1 θ
+  · match vals, one 1 (params_len _ t 1 ht (by decide)) with
+    | [θ], _ => exact hp.2.1 θ
+  · match vals, one 1 (params_len _ t 1 ht (by decide)) with
+    | [θ], _ => exact hp.2.2.1 θ
+  · match vals, one 1 (params_len _ t 1 ht (by decide)) with
+    | [θ], _ => exact hp.2.2.2.1 θ
+  · match vals, one 2 (params_len _ t 2 ht (by decide)) with
+    | [a, b], _ => exact hp.2.2.2.2.1 a b
+  · match vals, one 3 (params_len _ t 3 ht (by decide)) with
+    | [a, b, c], _ => exact hp.2.2.2.2.2 a b c
+  · match vals, one 1 (params_len _ t 1 ht (by decide)) with
+    | [θ], _ => exact hc.1 θ
+  · match vals, one 1 (params_len _ t 1 ht (by decide)) with
+    | [θ], _ => exact hc.2.1 θ
+  · match vals, one 1 (params_len _ t 1 ht (by decide)) with
+    | [θ], _ => exact hc.2.2.1 θ
+  · match vals, one 1 (params_len _ t 1 ht (by decide)) with
+    | [θ], _ => exact hc.2.2.2.1 θ
+  · match vals, one 3 (params_len _ t 3 ht (by decide)) with
+    | [a, b, c], _ => exact hc.2.2.2.2.1 a b c
+  · match vals, one 1 (params_len _ t 1 ht (by decide)) with
+    | [θ], _ => exact hc.2.2.2.2.2.1 θ
+  · match vals, one 1 (params_len _ t 1 ht (by decide)) with
+    | [θ], _ => exact hc.2.2.2.2.2.2.1 θ
+  · match vals, one 1 (params_len _ t 1 ht (by decide)) with
+    | [θ], _ => exact hc.2.2.2.2.2.2.2.1 θ
+  · match vals, one 0 (params_len _ t 0 ht (by decide)) with
+    | [], _ => exact hc.2.2.2.2.2.2.2.2.1
+  · match vals, one 0 (params_len _ t 0 ht (by decide)) with
+    | [], _ => exact hc.2.2.2.2.2.2.2.2.2
+  · match vals, one 0 (params_len _ t 0 ht (by decide)) with
+    | [], _ => exact h_ok h ha hpi
+  · match vals, one 0 (params_len _ t 0 ht (by decide)) with
+    | [], _ => exact x_ok h ha hpi
+  · match vals, one 0 (params_len _ t 0 ht (by decide)) with
+    | [], _ => exact y_ok h ha hpi
+  · match vals, one 0 (params_len _ t 0 ht (by decide)) with
+    | [], _ => exact z_ok h ha hpi
+  · match vals, one 0 (params_len _ t 0 ht (by decide)) with
+    | [], _ => exact s_ok h ha hpi
+  · match vals, one 0 (params_len _ t 0 ht (by decide)) with
+    | [], _ => exact sdg_ok h ha hpi
+  · match vals, one 0 (params_len _ t 0 ht (by decide)) with
+    | [], _ => exact t_ok h ha ha2 hpi
+  · match vals, one 0 (params_len _ t 0 ht (by decide)) with
+    | [], _ => exact tdg_ok h ha ha2 hpi
+  · match vals, one 0 (params_len _ t 0 ht (by decide)) with
+    | [], _ => exact v_ok h ha hpi
+  · match vals, one 0 (params_len _ t 0 ht (by decide)) with
+    | [], _ => exact vdg_ok h ha hpi
+  · match vals, one 0 (params_len _ t 0 ht (by decide)) with
+    | [], _ => exact i_ok h ha hpi
+  · match vals, one 0 (params_len _ t 0 ht (by decide)) with
+    | [], _ => exact cx_ok h
+  · match vals, one 0 (params_len _ t 0 ht (by decide)) with
+    | [], _ => exact cy_ok h ha hpi
+  · match vals, one 0 (params_len _ t 0 ht (by decide)) with
+    | [], _ => exact cz_ok h ha hpi
+  · match vals, one 0 (params_len _ t 0 ht (by decide)) with
+    | [], _ => exact swap_ok h
+  · match vals, one 0 (params_len _ t 0 ht (by decide)) with
+    | [], _ => exact cs_ok h hh ha hpi
+  · match vals, one 0 (params_len _ t 0 ht (by decide)) with
+    | [], _ => exact csdg_ok h hh ha hpi
+  · match vals, one 0 (params_len _ t 0 ht (by decide)) with
+    | [], _ => exact ch_ok h ha ha2 hpi
+  · match vals, one 0 (params_len _ t 0 ht (by decide)) with
+    | [], _ => exact ccx_ok h ha ha2 hpi
+  · match vals, one 0 (params_len _ t 0 ht (by decide)) with
+    | [], _ => exact ccz_ok h ha ha2 hpi
+
+/-- FULL STATEMENT (`export_equiv`, NOT proved): for every circuit outside the defect classes the exported program
+has the same branch set as the circuit.  PROVED (`_partial`) for the sub-class of circuits with at least one qubit
+and at most 64 classical bits whose operations are `QOp.equivSound libTable okParam`: UNCONDITIONAL gates that are `sound` (see
+`export_wellformed_partial`), built with `Kron`, `Composite`, `Loop` at any depth from the library gates named by
+`okParam` (every library gate with a good template: all but CU2, CV, CVdg, `okParam_eq_good`) on valid qubits; resets;
+barriers; Z-basis measurements `measure q -> c` with operands in range (at most 64 classical bits); CONDITIONAL
+sound gates whose control list is a non-empty permutation of the whole classical register, whose target is below
+`2^len` and all of whose leaves translate into a single statement (`QGate.singleStmt`: not Swap, CRX, CRY, CCRX, CCRY,
+CCRZ, CCZ); `reset_all`.  NOT in the proved class: `measure_all` (the Born semantics enumerates its outcomes in a
+different order than the sequential measurement of the exported program: a multiset statement is needed).  Conclusion: running the exported lines (`exportedRun`: `Spec.OQ2`'s branching semantics, parameter
+values taken from the model) and the Born semantics of the circuit (`Spec.branches`), both keeping zero-weight
+branches (`nzT`), give branch lists that correspond one to one: same register word, states equal up to a factor of
+modulus one (`BrRel`). -/
+theorem export_equiv_partial (h : LawfulAmp α P) (hh : Proofs.Unitaries.LawfulHalf α P) (ha : LawfulAngle α P)
+    (ha2 : LawfulAngle2 α P) (ha3 : LawfulAngle3 α P) (hpi : LawfulAnglePi α P) (c : QCircuit P) (hq : 0 < c.nq) (hnc : c.nc ≤ 64)
+    (hs : ∀ op ∈ c.ops, op.equivSound libTable okParam c.nq c.nc = true) (ls : List (Line P))
+    (he : exportCircuit libTable c = .ok ls) :
+    ∃ cops, c.ops.mapM QOp.toCOp = some cops ∧ ∃ r1 r2 : List (Branch α),
+      exportedRun nzT c.nq c.nc ls = some r1 ∧
+      Spec.branches c.nq nzT cops [(zeroState c.nq, 0)] = some r2 ∧ List.Forall₂ (BrRel P c.nq) r1 r2 :=
+  export_equiv_of_sound h libTable okParam (leaves_ok h hh ha ha2 ha3 hpi) c hq hnc hs ls he
+
+end equiv
+
+/-- the hypotheses are satisfiable: the theorem at complex amplitudes and real angles -/
+example (c : QCircuit ℝ) (hq : 0 < c.nq) (hnc : c.nc ≤ 64)
+    (hs : ∀ op ∈ c.ops, op.equivSound libTable okParam c.nq c.nc = true)
+    (ls : List (Line ℝ)) (he : exportCircuit libTable c = .ok ls) :
+    ∃ cops, c.ops.mapM QOp.toCOp = some cops ∧ ∃ r1 r2 : List (Branch ℂ),
+      exportedRun nzT c.nq c.nc ls = some r1 ∧
+      Spec.branches c.nq nzT cops [(zeroState c.nq, 0)] = some r2 ∧ List.Forall₂ (BrRel ℝ c.nq) r1 r2 :=
+  export_equiv_partial AmpComplex.lawful AmpComplex.lawfulHalf lawfulAngleComplex lawfulAngle2Complex
+    lawfulAngle3Complex lawfulAnglePiComplex c hq hnc hs ls he
+
+/-- non-vacuity: complex amplitudes, real angles; a circuit of the class (a `Kron`, a loop around a composite of
+`CCRX` and `CU3` on permuted qubits, a reset, a barrier) -/
+example : ∀ op ∈ ([.gate (.kron (.lib "RX" [.direct 1]) (.lib "CRY" [.direct 2])) [2, 0, 1],
+      .gate (.lib "H" []) [1], .gate (.lib "CCX" []) [2, 0, 1], .gate (.lib "CH" []) [1, 2],
+      .gate (.loop "l" 2 "c" 3 (.cons (.lib "CCRX" [.direct 3]) [1, 0, 2]
+        (.cons (.lib "CU3" [.direct 1, .direct 2, .direct 3]) [2, 0] .nil))) [0, 2, 1],
+      .reset 1, .resetAll, .measure 2 1 .Z, .cond [1, 0] 2 (.kron (.lib "CU3" [.direct 1, .direct 2, .direct 3]) (.lib "T" [])) [2, 0, 1],
+      .barrier [0, 2]] : List (QOp ℝ)), op.equivSound libTable okParam 3 2 = true := by decide
 
 /-! ## Negative witnesses (the pinned code violates the property) and agreement (non-vacuity) -/
 
